@@ -86,6 +86,9 @@ type flags struct {
 	newState bool
 	aux      bool
 	entries  int // number of registry entries of this binary (downgrade: fewer than the database has seen)
+	// configuration of the history pruner (--prune-retained-blocks, --prune-min-age)
+	retained uint64
+	minAge   time.Duration
 }
 
 func (f flags) String() string {
@@ -124,7 +127,7 @@ func prodRegistry(f flags, rl *runLog, aux *toy) *migration.Registry {
 		case idxBlockTx:
 			r.With(&recMig{inner: &blocktransactions.Migrator{}, idx: i, rl: rl})
 		case idxPrune:
-			r.WithOptional(&recMig{inner: historyprunner.New(0, time.Duration(0)), idx: i, rl: rl}, f.prune, "prune-mode")
+			r.WithOptional(&recMig{inner: historyprunner.New(f.retained, f.minAge), idx: i, rl: rl}, f.prune, "prune-mode")
 		case idxNewState:
 			r.WithOptional(&recMig{inner: &headstate.Migrator{}, idx: i, rl: rl}, f.newState, "new-state")
 		case idxSDL:
